@@ -121,11 +121,13 @@ IsSubseq(sq, k, ids, from) ==
     ELSE LET P == {p \in from..Len(ids) : ids[p] = sq[k]}
          IN  P # {} /\ IsSubseq(sq, k + 1, ids, SetMin(P) + 1)
 Roots(c, cf) == {i \in Nodes(c) : i = SetMin(cf[i])}                      \* one position per component
+\* same size, and every event of sq occurs in the block as often as in sq (then the block holds nothing else);
+\* written over the members of sq so that it stays cheap on lists of hundreds of events
 SameBag(c, sq, block) == Len(sq) = Cardinality(block) /\
-                         \A a \in Ids(c) : Occ(sq, a) = Cardinality({j \in block : c.id[j] = a})
+                         \A k \in DOMAIN sq : Occ(sq, sq[k]) = Cardinality({j \in block : c.id[j] = sq[k]})
 
 ClauseHolds(cl, c, seqs, calls) ==
-    CASE cl = "OnlyInputEvents" -> \A s \in DOMAIN seqs : \A k \in DOMAIN seqs[s] : seqs[s][k] \in Ids(c)
+    CASE cl = "OnlyInputEvents" -> LET ids == Ids(c) IN \A s \in DOMAIN seqs : \A k \in DOMAIN seqs[s] : seqs[s][k] \in ids
       \* every list entry in exactly one sequence: an event occurs in the output as often as in the list
       [] cl = "EveryEventOnce"  -> \A a \in Ids(c) :
                                      Cardinality({p \in UNION {{<<s, k>> : k \in DOMAIN seqs[s]} : s \in DOMAIN seqs} :
@@ -146,7 +148,8 @@ ClauseHolds(cl, c, seqs, calls) ==
       \* object identity is recorded by the binder but not judged -- the statement does not forbid handing over copies)
       [] cl = "CallsOnInputEvents" -> \A k \in DOMAIN calls : Len(calls[k]) = 4 /\ calls[k][3] = 1 /\ calls[k][4] = 1
       [] cl = "CallsOnDistinctInputs" ->
-             \A k \in DOMAIN calls : /\ calls[k][1] \in Ids(c) /\ calls[k][2] \in Ids(c)
+             LET ids == Ids(c) IN
+             \A k \in DOMAIN calls : /\ calls[k][1] \in ids /\ calls[k][2] \in ids
                                      /\ (calls[k][1] = calls[k][2] => Mult(c, calls[k][1]) >= 2)
 
 (***************************************************************************)
